@@ -53,6 +53,8 @@ if __name__ == "__main__":
     pid, i = sys.argv[1], sys.argv[2]
     checks = sys.argv[3:] or [pid]
     patch = f"/verif/seeded/{pid}-{i}/patch.diff"
+    if pid == "refactoring":          # behaviour-preserving refactorings (DESIGN.md 11.8): /verif/refactorings/<name>/patch.diff
+        patch = f"/verif/refactorings/{i}/patch.diff"
     scratch = os.environ.get("SEED_WORKTREE") == "1"
     root = "/repo"
     if scratch:
